@@ -14,7 +14,11 @@ ID = 'C11'
 GEN = [('Gen/C11_Netutils.v', gen_C11.generate), ('Gen/C11_Code.v', gen_C11.generate_code)]
 EQUIV_FILES = ['Proofs/C11.v']
 EXTRACT = 'Extract/C11_x.v'
-LEVEL_TEXT = 'proof'
+LEVEL_TEXT = ('Unbounded theorems (all strings): strict IPv4 accepted <-> canonical dotted quad; IPv6 accepted <-> RFC 4291 text optionally followed by % and a scope of 1..15 characters '
+              'without % or / (agrees with ipaddress); MAC <-> six hex pairs joined by colons (derived from the regenerated regex through a proved-sound-and-complete reading of the matcher); '
+              'port / ICMP type / ICMP code <-> int() value in range (None for the code only) on the statement-level translations of the source; inet_aton and netaddr.IPNetwork(text) are '
+              'modelled in Coq with declarative grammars and iff theorems, so is_valid_ip, non-strict is_valid_ipv4, is_valid_cidr and is_valid_ipv6_cidr are characterised for ALL strings '
+              'and every validator is proved total (returns a bool for every str) without any oracle premise.')
 LEVEL_NOTE = ('oslo logic + Coq models of every library function the validators reach: inet_pton(AF_INET/AF_INET6), inet_aton (glibc 2.36), '
               'CPython str->C string conversion, netaddr.valid_ipv4 (both modes) / valid_ipv6 / IPNetwork(text[, version=6]) (netaddr 1.3.0), int(), '
               'str.lower(), re; no oracle argument is left — the library models are tied by correspondence (ops pton4/pton6/aton/na_aton/net/net6)')
